@@ -35,7 +35,21 @@ KNOWN_MATCHERS = {}
 CODECS = ['none', 'snappy', 'gzip', 'zstd']
 
 
+def idof(v):
+    """row id of an `id` cell (single-string-column schemas carry it as 'r<i>')"""
+    if isinstance(v, str):
+        try:
+            return int(v[1:])
+        except ValueError:
+            return v
+    return v
+
+
 def schema_of(kind):
+    if kind == 'single_int':
+        return pa.schema([('id', pa.int64())])
+    if kind == 'single_str':
+        return pa.schema([('id', pa.string())])
     fields = [('id', pa.int64()), ('s', pa.string()), ('f', pa.float64())]
     if kind == 'nested':
         fields += [('st', pa.struct([('a', pa.int64()), ('b', pa.float64())])), ('l', pa.list_(pa.int64())), ('lf', pa.list_(pa.float64()))]
@@ -47,6 +61,10 @@ STRS = ['', 'a', 'é😀', 'x' * 40, 'line\nbreak', None, 'same', 'same']
 
 
 def make_rows(count, kind, salt):
+    if kind == 'single_int':
+        return [{'id': i} for i in range(count)]
+    if kind == 'single_str':
+        return [{'id': 'r%d' % i} for i in range(count)]
     rows = []
     for i in range(count):
         h = (i * 2654435761 + salt * 40503) & 0xffffffff
@@ -81,7 +99,7 @@ def gen_case(rng, tier):
     count = min(count, limit)
     return {'count': count, 'n': n, 'b': rng.choice([1, 2, 3, 10, 100, 1024, 2000, max(1, count), max(1, n)]),
             'rg': rng.choice([None, None, None, 1, 2, 7, 100, 500]), 'compression': rng.choice(CODECS),
-            'schema': rng.choice(['flat', 'nested']), 'via': rng.choice(['path', 'path', 'fileobj', 'open_obj']),
+            'schema': rng.choice(['flat', 'flat', 'nested', 'nested', 'single_int', 'single_str']), 'via': rng.choice(['path', 'path', 'fileobj', 'open_obj']),
             'resub': rng.random() < 0.4, 'salt': rng.randint(0, 1000), 'dump_twice': rng.random() < 0.3}
 
 
@@ -94,6 +112,12 @@ def cases(tier, rng):
     c = dict(base)
     c.update(count=9, n=4, b=2, resub=True, schema='nested', via='fileobj', compression='zstd', rg=3)
     yield c
+    # schemas with exactly one column (a record is transposed column by column)
+    for kind in ('single_int', 'single_str'):
+        for count, n in [(0, 4), (1, 4), (5, 2), (9, 4)]:
+            c = dict(base)
+            c.update(count=count, n=n, schema=kind)
+            yield c
     # the dump observable subscribed twice (a periodic re-export to the same path): the file holds the rows once
     for count, n in [(3, 8), (7, 3), (4, 2), (0, 4)]:
         c = dict(base)
@@ -157,7 +181,7 @@ def real(case):
             pf = pq.ParquetFile(io.BytesIO(data))
             res['groups'] = [pf.metadata.row_group(i).num_rows for i in range(pf.metadata.num_row_groups)]
             t = pf.read()
-            res['file_ids'] = t.column('id').to_pylist()
+            res['file_ids'] = [idof(v) for v in t.column('id').to_pylist()]
             res['table'] = [canon(r) for r in table_rows(t)]
         except Exception as e:
             res['read_error'] = type(e).__name__
@@ -205,7 +229,7 @@ def compare(case, r, m):
     if r['groups'] != m['groups']:
         return 'row groups: real %s model %s' % (r['groups'][:12], m['groups'][:12])
     for ld in r['loads'][:1]:
-        ids = [x['id'] for x in ld['rows']]
+        ids = [idof(x['id']) for x in ld['rows']]
         if ids != m['load']:
             return 'loaded rows: real ids %s..., model %s...' % (diff_at(ids, m['load']))
     return None
